@@ -131,6 +131,11 @@ func main() {
 		// transient download failures (within the downloader's retry loop), e.g. of the own snapshot after a restart
 		parts = append(parts, part{"loop-" + name + "-load-faults", loopworld.Cfg{Native: native, LoadFaults: true, MaxVisits: 1, AppOps: []string{"put-b", "del-a"}}})
 	}
+	for _, native := range []bool{true, false} {
+		name := map[bool]string{true: "native", false: "shadow"}[native]
+		// an instance started on an empty LMDB (no snapshot of its own): its first commits must be published too
+		parts = append(parts, part{"loop-" + name + "-fresh-instance", loopworld.Cfg{Native: native, EmptyStart: true, Remote2: true, MaxVisits: 1, AppOps: []string{"put-b", "newdbi"}}})
+	}
 	// cheapest parts first: each part may use an equal share of what is left, so the expensive ones get what the cheap ones save
 	{
 		var small, large []part
